@@ -208,7 +208,7 @@ def handle (j : Json) : R Json := do
     let again ← outcomeOfJson (← fld j "again")
     let m := outcomeOfRes (commandDo argT resT (fun _ => ret) data)
     let verdict := match out with
-      | some o => judgeResult resT o again
+      | some o => judgeResult resT ret o again
       | none => ["result:missing"]
     let wf := (match resT with | some t => t.wfB | none => true) && (match argT with | some t => t.wfB | none => true)
     return Json.mkObj [("wf", .bool wf), ("model", outcomeToJson (some m)), ("judge", jstrs verdict)]
